@@ -102,11 +102,15 @@ public:
     void push_front(const column_info &);
 
     void build(const record_t &, bool);
+    void new_table() { header_seen_ = false; }
 
     bool is_valid() const;
 
   private:
     std::vector<column_info> cols_;
+
+    // Has the header row of the table being read been seen (see `build`)?
+    bool header_seen_ = false;
   };
 
   // ---- Constructors ----
